@@ -18,3 +18,27 @@ package clause
 //@   ensures limit-merged: is(o, Limit) ==> clause.Expression.(Limit).Limit == ite(limit.Limit != nil && *limit.Limit != 0, limit.Limit, ite(o.(Limit).Limit != nil, o.(Limit).Limit, limit.Limit))
 //@   ensures offset-merged: is(o, Limit) ==> clause.Expression.(Limit).Offset == ite(limit.Offset > 0, limit.Offset, ite(limit.Offset == 0 && o.(Limit).Offset > 0, o.(Limit).Offset, 0))
 //@   ensures first: !is(o, Limit) ==> clause.Expression.(Limit) == limit
+
+//@ # ---------- SQL generation writes only builder state (C06 frame part of Build) ----------
+//@ iface Expression.Build(recv, builder)
+//@   tags C06
+//@   modifies region(builder)
+//@   skip-impl (NamedExpr).Build its local map and scratch slice are captured by a recursive closure stored in a local; the engine's escape analysis cannot keep them across builder calls
+//@ iface NegationExpressionBuilder.NegationBuild(recv, builder)
+//@   tags C06
+//@   modifies region(builder)
+//@ iface Builder.WriteQuoted(recv, field)
+//@   modifies region(recv)
+//@ iface Builder.AddVar(recv, w, vars)
+//@   modifies region(recv)
+//@ iface Builder.AddError(recv, err)
+//@   modifies region(recv)
+//@ iface Writer.WriteByte(recv, c)
+//@   modifies region(recv)
+//@ iface Writer.WriteString(recv, s)
+//@   modifies region(recv)
+//@ fnfield Clause.Builder(c, builder)
+//@   modifies region(builder)
+//@ func buildExprs
+//@   tags C06
+//@   modifies region(builder)
